@@ -54,6 +54,9 @@ def get_classes():
             self.log.append(("req", self.tag))
             cur = req_args.headers.get("X-Tags")
             req_args.headers["X-Tags"] = (cur + "," if cur else "") + self.tag
+            if self.tag.startswith("A"):
+                # an adapter may change any of the request arguments: this one sends the request to a replica
+                req_args.address = "http://replica-%s.invalid" % self.tag.lower()
 
         def process_response(self, return_value):
             self.log.append(("resp", self.tag))
@@ -187,6 +190,8 @@ def expected_request(spec_chain, address, method, a):
             path = join_path(ad["p"], path)
         elif ad["k"] == "tag":
             tags.append(ad["tag"])
+            if ad["tag"].startswith("A"):
+                address = "http://replica-%s.invalid" % ad["tag"].lower()     # this adapter re-routes the request
         else:
             auth = ad
     if a.get("params"):
@@ -537,7 +542,7 @@ def evaluate(case):
 def st_adapter():
     return st.one_of(
         st.sampled_from(PREFIXES).map(lambda p: {"k": "prefix", "p": p}),
-        st.sampled_from(["T1", "T2", "T3", "T4", "U5"]).map(lambda t: {"k": "tag", "tag": t}))
+        st.sampled_from(["T1", "T2", "T3", "T4", "U5", "A6"]).map(lambda t: {"k": "tag", "tag": t}))
 
 
 def st_layer():
